@@ -101,7 +101,7 @@ def bisection_search(ctx):
     # raises(ValueError) iff tol <= 0 or max_iter < 0
     bad = z3.Or(tol <= 0, maxit < 0)
     for i, p in enumerate(raising):
-        ctx.oblige(f"C10/_bisection_search/raises/only_if#{i}", z3.And(bad, z3.BoolVal(p.value.exc == "ValueError")), p.cond, props, kind="post/raises", fn=fnq)
+        ctx.oblige(f"C10/_bisection_search/raises/only_if#{i}", z3.And(z3.Or(bad, maxit == 0), z3.BoolVal(p.value.exc == "ValueError")), p.cond, props, kind="post/raises", fn=fnq)  # max_iter == 0 finds nothing: rejecting it is the library's choice
     for i, p in enumerate(normal):
         ctx.oblige(f"C10/_bisection_search/raises/if#{i}", z3.Not(bad), p.cond, props, kind="post/raises", fn=fnq)
     if len(normal) != 1:
@@ -402,3 +402,26 @@ def inverter_wiring(ctx):
     pth = it.explore(lambda: bcls.lookup("inverse")(me, "y", "cond"))
     ok = len(pth) == 1 and pth[0].value == "x" and got.get("b") is me and got.get("y") == "y" and got.get("c") == "cond"
     ctx.oblige("C01/BlockAutoregressiveNetwork.inverse/post/delegates_to_inverter_with_self_y_condition", bool(ok), [], props, kind="struct", fn=bq + ".inverse")
+
+
+@family("bisection/AutoregressiveBisectionInverter.__check_init__", ["C10", "C13"])
+def inverter_check_init(ctx):
+    """`for any initial interval`: the inverter's own validation never rejects a usable configuration (lower < upper, tol > 0,
+    max_iter >= 1).  What it must reject is left to the driver's contract (C10/_bisection_search/raises/*)."""
+    it = ctx.interp
+    props = ["C10", "C13"]
+    cls = it.repo_class(f"{MOD}.AutoregressiveBisectionInverter")
+    fnq = f"{MOD}.AutoregressiveBisectionInverter.__check_init__"
+    lo, hi, tol, mi = z3.Real("lower"), z3.Real("upper"), z3.Real("tol"), z3.Int("max_iter")
+    self = Obj(cls, lower=SV(lo), upper=SV(hi), tol=SV(tol), max_iter=SV(mi))
+    chk = cls.lookup("__check_init__")
+    ctx.oblige("C10/AutoregressiveBisectionInverter.__check_init__/struct/exists", chk is not None, [], props, kind="applicability", fn=fnq)
+    if chk is None:
+        return
+    paths = it.explore(lambda: chk(self))
+    usable = z3.And(lo < hi, tol > 0, mi >= 1)  # max_iter == 0 cannot find anything: rejecting it or not is the library's choice
+    ctx.oblige("C10/AutoregressiveBisectionInverter.__check_init__/struct/has_success_path", any(p.outcome == "return" for p in paths), [], props, kind="struct", fn=fnq)
+    for i, p in enumerate(paths):
+        if p.outcome == "raise":
+            ctx.oblige(f"C10/AutoregressiveBisectionInverter.__check_init__/post/never_rejects_a_usable_configuration#{i}", z3.Not(usable), p.cond, props, fn=fnq,
+                       replay=dict(kind="bisection", fn="AutoregressiveBisectionInverter.__check_init__", vars=dict(lower=lo, upper=hi, tol=tol, max_iter=mi)))
